@@ -224,6 +224,22 @@ func nilHandleOp(r *fsx.Runner, o fsx.Op) bool {
 	return ok && f == nil
 }
 
+// parity: with no failure installed (or one that lets everything through) the path helpers and
+// accessors of the FailFS answer as the base does.
+func (in *inst) parity(cs Case) *vt.Deviation {
+	a, ok1 := in.through.(avfs.VFS)
+	b, ok2 := in.cmp.(avfs.VFS)
+	if !ok1 || !ok2 || cs.Plan == "fault" && in.fired || cs.Plan == "readonly" {
+		return nil
+	}
+	if diff := fsx.LexicalParity(a, b, []string{"", ".", "..", "a", "/w/a", "../x", "/", "a/b/../c", "[a", "*"}); diff != "" {
+		d := vt.Dev("prop", "C12", "fs", in.kind, "plan", cs.Plan, "op", "helpers", "clause", "not-transparent")
+		d.Detail = fmt.Sprintf("FailFS(%s) plan=%s %s", in.kind, cs.Plan, diff)
+		return d
+	}
+	return nil
+}
+
 func (in *inst) close() {
 	in.rf.CloseAll()
 	in.rb.CloseAll()
@@ -248,7 +264,12 @@ func run(c *vt.Ctx, cs Case) (*vt.Deviation, map[avfs.FnVFS]int, bool) {
 			return dev, in.counts, in.fired
 		}
 		if stop {
-			break
+			return nil, in.counts, in.fired
+		}
+	}
+	if cs.Plan == "none" || cs.Plan == "ok" {
+		if dev := in.parity(cs); dev != nil {
+			return dev, in.counts, in.fired
 		}
 	}
 	return nil, in.counts, in.fired
